@@ -310,7 +310,47 @@ def rule_params_forwarded_(ctx: Ctx, rep: Report) -> None:
     rule_params_forwarded(ctx, rep, "C06.params_forwarded", ('btclib.b32', 'btclib.b58', 'btclib.base58', 'btclib.bech32', 'btclib.to_pub_key', 'btclib.to_prv_key', 'btclib.script.script_pub_key', 'btclib.network'), 60)
 
 
+def rule_case_mapping(ctx: Ctx, rep: Report) -> None:
+    """C06.case_mapping: bech32's "no mixed case" rule is the decoder's, and it
+    can only refuse what it is shown. (a) No caller case-maps the whole string
+    before handing it to a bech32 decoder (a lowered mixed-case string is a
+    lower-case string). (b) Inside the decoder a whole-string `.lower()` is a
+    Unicode mapping: it carries non-ascii characters *into* the charset (the
+    Kelvin sign U+212A lowers to "k" and is its own upper case), so it is
+    preceded by an `isascii()` refusal -- or the lowering is per character and
+    ascii only."""
+    from sa.canon import expand
+    rule = "C06.case_mapping"
+    decoders = {"btclib.bech32.decode", "btclib.bech32._decode", "btclib.b32.witness_from_address", "btclib.b32.address_from_witness"}
+    n = 0
+    for fi in sorted(ctx.prog.functions.values(), key=lambda f: f.qualname):
+        for c in own_nodes(fi.node):
+            if not (isinstance(c, ast.Call) and c.args and ctx.resolve_call(fi, c) in ("btclib.bech32.decode", "btclib.bech32._decode")):
+                continue
+            n += 1
+            arg = ast.parse(str(expand(fi, c.args[0])), mode="eval")
+            mapped = [x for x in ast.walk(arg) if isinstance(x, ast.Call) and isinstance(x.func, ast.Attribute) and x.func.attr in ("lower", "upper", "casefold", "swapcase", "title", "capitalize")]
+            rep.ob(rule, f"{fi.qualname}->{call_name(c)}", not mapped, fi.where(c), "the decoder sees the string as it was written" if not mapped else
+                   f"the string is `{norm(mapped[0])[-40:]}`-ed before bech32 sees it: a mixed-case string, which BIP173 refuses, arrives in one case")
+    d = ctx.func(f"{BE}._decode")
+    g = ctx.cfg(d)
+    cs = refusal_constraints(ctx, d)
+    ascii_guard = [c_ for c_ in cs if "isascii()" in str(c_.subject) and c_.op == "falsy" and not c_.from_fact]
+    for a in own_nodes(d.node):
+        if isinstance(a, ast.Assign) and isinstance(a.value, ast.Call) and isinstance(a.value.func, ast.Attribute) and a.value.func.attr in ("lower", "casefold") \
+                and isinstance(a.value.func.value, ast.Name):
+            n += 1
+            ok = bool(ascii_guard) and g.path_avoiding(g.nodes_containing(a), [c_.test_id for c_ in ascii_guard if c_.test_id >= 0]) is None
+            rep.ob(rule, f"_decode:{norm(a)}", ok, d.where(a), "behind an isascii() refusal" if ok else
+                   f"`{norm(a)}` maps non-ascii characters into the charset (U+212A -> 'k'): an all-capitals string carrying one is decoded as if written in ascii")
+    per_char = PT.has(d.node, "$t = ''.join(($c.lower() if $c.isascii() else $c for $c in $t))", {})
+    rep.ob(rule, "_decode:lowering_is_ascii_only", per_char or bool(ascii_guard), d.where(), "lowered character by character, ascii only" if per_char else "whole-string lowering behind an isascii() refusal" if ascii_guard else
+           "no ascii-only lowering found")
+    rep.floor(rule, 3)
+
+
 RULES = [
+    ("C06.case_mapping", rule_case_mapping),
     ("C06.params_forwarded", rule_params_forwarded_),
     ("C06.own_fields", rule_own_fields),
     ("C06.one_network", rule_one_network),
@@ -323,6 +363,10 @@ RULES = [
 ]
 
 CONTROLS = [
+    {"rule": "C06.case_mapping", "name": "the silent payment address is lowered before bech32 sees it (F19)", "module": "btclib.silent_payments",
+     "edit": lambda ctx: M.sub_expr(ctx, "btclib.silent_payments.keys_from_address", lambda n: isinstance(n, ast.Assign) and "str_from_string(address" in norm(n.value), "addr = str_from_string(address, 'address').strip().lower()")},
+    {"rule": "C06.case_mapping", "name": "bech32 lowers the whole string, non-ascii included (F18)", "module": BE,
+     "edit": lambda ctx: M.sub_expr(ctx, f"{BE}._decode", lambda n: isinstance(n, ast.Assign) and "isascii" in norm(n.value), "text = text.lower()")},
     {"rule": "C06.one_network", "name": "p2ms reads every key against the caller's network", "module": "btclib.script.script_pub_key",
      "edit": lambda ctx: M.sub_expr(ctx, "btclib.script.script_pub_key.ScriptPubKey.p2ms", lambda n: isinstance(n, ast.Assign) and isinstance(n.targets[0], ast.Tuple) and "pub_keyinfo_from_key(keys[0]" in norm(n.value),
                                     "pub_key, _unused_network = pub_keyinfo_from_key(keys[0], network, compressed)")},
